@@ -37,6 +37,7 @@
 import GoImap.Model.ClientParse
 import GoImap.Lemmas.ClientParseHoare
 import GoImap.Lemmas.ClientParseCost
+import GoImap.Lemmas.ClientParseFuel
 namespace GoImap.C11
 open GoImap GoImap.ClientParse
 
@@ -49,11 +50,12 @@ theorem clientParse_good (tag : Bytes) (kind : Kind) (inp : Bytes) :
     (∀ n ∈ (clientParse {} tag kind inp).delivered, n ≠ 0) ∧
     (∀ s, (clientParse {} tag kind inp).all = some s → StaticSet s) ∧
     (∀ s, (clientParse {} tag kind inp).src = some s → StaticSet s) ∧
-    (∀ s, (clientParse {} tag kind inp).dst = some s → StaticSet s) := by
+    (∀ s, (clientParse {} tag kind inp).dst = some s → StaticSet s) ∧
+    (clientParse {} tag kind inp).deliveredDepth ≤ maxListDepth := by
   have h := readLoop_good (2 * inp.length + 8) (inp.length + 2) _ (good_init tag kind inp)
   unfold clientParse
   simp only []
-  refine ⟨h.1, h.2.2, h.2.1.nz, ?_, h.2.1.src, h.2.1.dst⟩
+  refine ⟨h.1, h.2.2, h.2.1.nz, ?_, h.2.1.src, h.2.1.dst, h.2.1.dd⟩
   intro s hs
   cases hall : (readLoop (2 * inp.length + 8) {} (inp.length + 2)
       { inp := inp, cs := initCS tag kind, cfg := {} }).2.cs.sAll with
@@ -68,6 +70,13 @@ theorem clientParse_good (tag : Bytes) (kind : Kind) (inp : Bytes) :
 theorem parse_no_panic (tag : Bytes) (kind : Kind) (inp : Bytes) :
     (clientParse {} tag kind inp).dec ≠ .panic :=
   (clientParse_good tag kind inp).1
+
+/-- **fuel_suffices.** The model's recursion fuel (`2·|input| + 8`, and `|input| + 2` responses)
+    never runs out, for the repaired reader and for `Legacy` alike: every other theorem here
+    speaks about a real outcome of the reader, not about a fuel artefact. -/
+theorem fuel_suffices (cfg : Cfg) (tag : Bytes) (kind : Kind) (inp : Bytes) :
+    (clientParse cfg tag kind inp).dec ≠ .nofuel :=
+  clientParse_fuel cfg tag kind inp
 
 /-- **depth_bounded.** Whatever the input, nesting never goes beyond the decoder's limit. -/
 theorem depth_bounded (tag : Bytes) (kind : Kind) (inp : Bytes) :
@@ -89,7 +98,13 @@ theorem delivered_sets_static (tag : Bytes) (kind : Kind) (inp : Bytes) (s : Num
   rcases h with h | h | h
   · exact g.2.2.2.1 s h
   · exact g.2.2.2.2.1 s h
-  · exact g.2.2.2.2.2 s h
+  · exact g.2.2.2.2.2.1 s h
+
+/-- **delivered_depth_bounded.** Every tree handed to the caller (body structures, thread trees)
+    is at most as deep as the decoder's limit — not only the recursion that built it. -/
+theorem delivered_depth_bounded (tag : Bytes) (kind : Kind) (inp : Bytes) :
+    (clientParse {} tag kind inp).deliveredDepth ≤ maxListDepth :=
+  (clientParse_good tag kind inp).2.2.2.2.2.2
 
 theorem allNums_static (s : NumSet.Set) (h : StaticSet s) :
     allNums s = .value (NumSetSpec.enumerate s) := by
